@@ -139,6 +139,38 @@ def ExistsIdx(lst: Any, fn: Callable[..., Any], upto: Any = None) -> Any:
     return _idx_quant(lst, fn, upto, False)
 
 
+class Alts:
+    """result of a symbolic call made from a contract clause: guarded alternatives [(guard, value)]"""
+
+    def __init__(self, alts: List[Tuple[Any, Any]]):
+        self.alts = alts
+
+
+def SymCall(target: str, *args: Any) -> Any:
+    """Run the real function `target` (again) on other arguments inside a clause -- for relational clauses such as
+    commutativity.  Symbolic: every path of the callee body gives one guarded alternative.  Native: a plain call."""
+    from .loader import lookup
+    fi = lookup(target)
+    if not _sym(*args):
+        return fi.pyfunc(*args)
+    ctx = current()
+    base = len(ctx.st.pc)
+    alts = []
+    st0 = ctx.st.copy()
+    st0.frames = ()          # a fresh activation: not a recursive call of the function under verification
+    for val, st2 in ctx.ex.inline(fi, list(args), {}, st0):
+        alts.append((z3.And(st2.pc[base:]) if len(st2.pc) > base else z3.BoolVal(True), val))
+    return Alts(alts)
+
+
+def EqAlts(x: Any, y: Any, eq: Optional[Callable[[Any, Any], Any]] = None) -> Any:
+    """x == y (or eq(x, y)) where y comes from SymCall"""
+    eq = eq or Eq
+    if isinstance(y, Alts):
+        return VBool(z3.And(z3.Or([g for g, _ in y.alts]), *[z3.Implies(g, V_._b(eq(x, v))) for g, v in y.alts]))
+    return eq(x, y)
+
+
 def IsNone(x: Any) -> Any:
     if isinstance(x, VUnion):
         return x.is_none()
